@@ -33,7 +33,8 @@ impl FooImpl {
 
 fn shapes(thorough: bool) -> Vec<FooImpl> {
     let mut v = vec![];
-    let heads: Vec<(Ty, u32)> = vec![(x(0), 1), (s(x(0)), 1), (s(a()), 0), (s(s(x(0))), 1), (a(), 0), (b(), 0)];
+    let heads: Vec<(Ty, u32)> =
+        vec![(x(0), 1), (s(x(0)), 1), (s(a()), 0), (s(s(x(0))), 1), (s(s(a())), 0), (a(), 0), (b(), 0)];
     for (h, nv) in heads {
         for wc in [false, true] {
             if wc && nv == 0 {
@@ -73,6 +74,38 @@ pub fn run_c19(rep: &Report) -> i32 {
     if thorough {
         // 4-impl programs: keep those with at most one negative impl to bound the run
         sets.retain(|s| s.len() < 4 || s.iter().filter(|i| !shapes[**i].positive).count() <= 1);
+    }
+    // declaration-order family: the priorities are computed by a walk over the specialization
+    // forest that starts from the impls in declaration order, so every ORDER of every 3..5-subset of
+    // the five-impl specialization lattice T > S<T> > {S<A>, S<S<T>>} > S<S<A>> is a program too
+    {
+        let lattice: Vec<usize> = shapes
+            .iter()
+            .enumerate()
+            .filter(|(_, f)| f.positive && !f.wc && f.head != a() && f.head != b())
+            .map(|(i, _)| i)
+            .collect();
+        fn perms(pool: &[usize], k: usize, cur: &mut Vec<usize>, out: &mut Vec<Vec<usize>>) {
+            if cur.len() == k {
+                out.push(cur.clone());
+                return;
+            }
+            for &p in pool {
+                if !cur.contains(&p) {
+                    cur.push(p);
+                    perms(pool, k, cur, out);
+                    cur.pop();
+                }
+            }
+        }
+        let mut ordered = vec![];
+        for k in 3..=lattice.len().min(5) {
+            perms(&lattice, k, &mut vec![], &mut ordered);
+        }
+        // the ascending orders of size <= max_impls are multisets already
+        ordered.retain(|o| !(o.len() <= max_impls && o.windows(2).all(|w| w[0] < w[1])));
+        rep.note("declaration_order_family", json!(ordered.len()));
+        sets.extend(ordered);
     }
     let bar_opts: Vec<(&str, Vec<Rule>)> = vec![
         ("", vec![]),
@@ -240,7 +273,7 @@ pub fn run_c19(rep: &Report) -> i32 {
         states,
         tr,
         nt,
-        "every multiset of up to 3 (thorough: 4) impls of one trait drawn from heads {T, S<T>, S<A>, S<S<T>>, A, B} x where-clause {none, T: Bar} x polarity (identical impls, blanket impls, chains and diamonds of specialization included) x 3 sets of Bar impls x {plain, #[marker]} x both solvers through CoherenceSolver::specialization_priorities; must never panic; when accepted (non-marker): impls of equal priority must have no common ground trait reference and an impl applying to a strict non-empty subset of another's references must have the higher priority (ground types of depth <= 3); non-trivial = rejected programs + accepted programs with overlapping impls",
+        "every multiset of up to 3 (thorough: 4) impls of one trait drawn from heads {T, S<T>, S<A>, S<S<T>>, S<S<A>>, A, B} (declared in a fixed order) plus every declaration order of every 3..5-subset of the specialization lattice T > S<T> > {S<A>, S<S<T>>} > S<S<A>>, x where-clause {none, T: Bar} x polarity (identical impls, blanket impls, chains and diamonds of specialization included) x 3 sets of Bar impls x {plain, #[marker]} x both solvers through CoherenceSolver::specialization_priorities; must never panic; when accepted (non-marker): impls of equal priority must have no common ground trait reference and an impl applying to a strict non-empty subset of another's references must have the higher priority (ground types of depth <= 3); non-trivial = rejected programs + accepted programs with overlapping impls",
         true,
         &["'applies to' = header matches and where-clauses are true by REF's lfp over the program's impls"],
     )
